@@ -10,6 +10,8 @@ package commitgraph
 // generation number in the top 30 bits of the 64-bit word and a 34-bit date:
 // the word written must carry the commit's generation in bits 34..63 whatever
 // the committer time is (property C51: generation numbers read back equal).
+// Every row ends with exactly one such 64-bit word (loop invariant words), so
+// the rule cannot be side-stepped by writing the two halves separately.
 // The parent words are positions in the file being written: each is the
 // hashToIndex entry of the parent's id (never a position taken from the source
 // index, whose numbering is another one), 0x70000000 for "no parent"; an
@@ -21,6 +23,7 @@ package commitgraph
 //gvc:  opt coarse
 //gvc:  opt frame args
 //gvc:  sink WriteUint64 requires generation: commitData.Generation <= 0x3fffffff ==> unixTime >> 34 == commitData.Generation
+//gvc:  loop 1 invariant words: calls("WriteUint64") == it1
 //gvc:  sink WriteUint32#1 requires first: len(commitData.ParentHashes) >= 1 ==> parent1 == hashToIndex[commitData.ParentHashes[0]]
 //gvc:  sink WriteUint32#1 requires none: len(commitData.ParentHashes) == 0 ==> parent1 == 0x70000000
 //gvc:  sink WriteUint32#2 requires second: len(commitData.ParentHashes) == 2 ==> parent2 == hashToIndex[commitData.ParentHashes[1]]
